@@ -183,10 +183,14 @@ def prefix_cases(rng, tier, op='encode'):
 
 def boundary_cases(rng, tier, per_cap=2, op='encode'):
     """inputs whose encoded length lands around a symbol capacity: digit / letter / byte runs of the
-    lengths that fill a symbol exactly, one less, one more (where the end-of-data rules fire)"""
+    lengths that fill a symbol exactly, one less, one more (where the end-of-data rules fire).  For the small
+    capacities (<= 62 codewords) the family is complete: every alphabet x every delta, plain and with each kind of tail,
+    with and without an FNC1 start (which shifts the parity of the codewords before the run)."""
     cs = []
     seen = set()
+    tails = {'digit1': [52], 'digit2': [52, 50], 'digit3': [52, 50, 51], 'upper': [65], 'lower': [97, 98], 'high': [200], 'punct': [33]}
     for c in sorted(set(caps())):
+        small = c <= 62
         if c > 120 and tier == 'quick' and rng.chance(2, 3):
             continue
         for kind in ('digits', 'c40', 'text', 'x12', 'edifact', 'high', 'ctrl'):
@@ -195,20 +199,29 @@ def boundary_cases(rng, tier, per_cap=2, op='encode'):
                 L = int((c - (0 if kind == 'digits' else 1)) * per) + delta
                 if L < 0 or L > 3200 or (kind, L) in seen:
                     continue
-                if not rng.chance(per_cap, 6):
+                if not small and not rng.chance(per_cap, 6):
                     continue
                 seen.add((kind, L))
-                d = [rng.choice(ALPH[kind]) for _ in range(L)]
-                if rng.chance(1, 3) and L > 4:
-                    # a tail of another alphabet
-                    t = rng.range(1, 4)
-                    d[-t:] = [rng.choice(ALPH[rng.choice(['digits', 'c40', 'high', 'shift2'])]) for _ in range(t)]
-                wl = rng.choice([DEFAULT, ALL48, ALL48])
-                if rng.chance(1, 3):
-                    # the symbol(s) of exactly this capacity alone: the early max_capacity / upper_limit gates see the boundary
-                    wl = [i for i, x in enumerate(caps()) if x == c][:1]
-                modes = 63 if rng.chance(2, 3) else rand_modes(rng)
-                line = encode_line(d, wl, modes, False, False, None).replace('encode', op, 1)
-                cs.append({'line': line, 'cat': 'boundary-' + kind,
-                           'cfg': dict(data=d, wl=wl, modes=modes, macros=False, fnc1=False, eci=None)})
+                variants = [None]
+                if small:
+                    variants += list(tails) if tier != 'quick' else [rng.choice(sorted(tails)), rng.choice(sorted(tails))]
+                elif rng.chance(1, 3) and L > 4:
+                    variants = ['mixed']
+                for v in variants:
+                    d = [rng.choice(ALPH[kind]) for _ in range(L)]
+                    if v == 'mixed':
+                        t = rng.range(1, 4)
+                        d[-t:] = [rng.choice(ALPH[rng.choice(['digits', 'c40', 'high', 'shift2'])]) for _ in range(t)]
+                    elif v is not None:
+                        t = tails[v]
+                        d = d[:max(0, L - len(t))] + t
+                    wl = rng.choice([DEFAULT, ALL48, ALL48])
+                    if rng.chance(1, 3):
+                        # the symbol(s) of exactly this capacity alone: the early max_capacity / upper_limit gates see the boundary
+                        wl = [i for i, x in enumerate(caps()) if x == c][:1]
+                    modes = 63 if rng.chance(2, 3) else rand_modes(rng)
+                    fnc1 = small and rng.chance(1, 4)
+                    line = encode_line(d, wl, modes, False, fnc1, None).replace('encode', op, 1)
+                    cs.append({'line': line, 'cat': 'boundary-' + kind,
+                               'cfg': dict(data=d, wl=wl, modes=modes, macros=False, fnc1=fnc1, eci=None)})
     return cs
